@@ -38,8 +38,8 @@ CLAIMED = {
  "C11": ("token-kind abstract interpretation run twice per <eof> test (<eof> vs ';') with recovery off and outcome comparison; taint analysis; call-graph rule",
          "Decides equal treatment of the two statement terminators in every production, the shape of the statement-list loop, shared productions, and position independence of the parser.",
          "Trusted: TKAI. Not decided: equality of trees up to a shift as a theorem.", "DESIGN.md §2 C11"),
- "C16": ("forward taint analysis over go/ssa (interprocedural, field-sensitive on locals) + def-use rules on token spellings",
-         "Decides that no branch of the parser and no non-position AST field depends on whitespace, comments or offsets, and that spellings are compared only through char.EqualFold; reserved words go through char.ToUpper (C14); comment scanning is exhaustive and in range (C14/R8).",
+ "C16": ("forward taint analysis over go/ssa (interprocedural, field-sensitive on locals) + def-use rules on token spellings + who-may-call rule on the Lexer's byte-level methods + partial evaluation of skipSpaces over the ASCII domain",
+         "Decides that no branch of the parser and no non-position AST field depends on whitespace, comments or offsets, and that spellings are compared only through char.EqualFold; reserved words go through char.ToUpper (C14); comment scanning is exhaustive and in range (C14/R8); outside the Lexer only token-producing methods of it are called and no branch depends on File.Buffer (R5); skipSpaces skips exactly the six ASCII white-space bytes (R4, by interpretation over all 128 bytes).",
          "Trusted: go/ssa def-use, VTA. Not decided: the rest of the lexer side (re-spacing never changes token boundaries).", "DESIGN.md §2 C16"),
  "C03": ("interprocedural may-escape analysis of *Error panics over go/ssa + VTA call graph (dominance of recovering defers, flag specialisation); value-flow check of every recover() use; loop-progress analysis over token-kind states; relational numeric abstract interpretation (unit-coefficient linear inequalities, context-sensitive by inlining, both noPanic modes) of the byte-level code",
          "Decides for every exported entry point that no syntax-error panic can escape, that every recover() value is re-panicked unless it is a *Error and recorded when it is, the dynamic types of the error results, progress of all 94 loops, and — for lexer.go, token/quote.go and char/ — that every index, slice, cursor assignment and error position is within bounds in every calling context (132 sites).",
